@@ -310,15 +310,17 @@ def mk_square(rng, mode, n, on_host, be, variant=None, k0=None):
 
 
 def corpus_cases():
-    """minimal inputs of the defect found on the pinned tree (D27); run first on every check.
+    """minimal inputs of the defect found on the pinned tree (D29); run first on every check.
     add_mul_wallace compacted the two final rows by skipping empty cells: for n = 2 row 1 has an empty
-    cell between gates from m = 9 on; the product is wrong from m = 11 on (3 * 704 gave 1088)"""
-    rng = random.Random(27)
+    cell between gates from m = 9 on; the product is wrong from m = 11 on (3 * 704 gave 1088); for n = 3
+    from m = 28 on"""
+    rng = random.Random(29)
     cases = [mk_mul(rng, 'add_mul_wallace', 2, 11, False, False, k0=1),
              mk_mul(rng, 'add_mul_wallace', 2, 9, False, False, k0=1),
              mk_mul(rng, 'add_mul_wallace', 2, 12, False, True, k0=1),
              mk_mul(rng, 'add_mul_wallace', 2, 13, True, False, k0=5),
-             mk_mul(rng, 'add_mul_wallace', 2, 16, False, False, k0=1)]
+             mk_mul(rng, 'add_mul_wallace', 2, 16, False, False, k0=1),
+             mk_mul(rng, 'add_mul_wallace', 3, 28, False, False, k0=1)]
     cases.append({'gen': ['gmul', 2, 11, 'WALLACE', False], 'k0': 1})
     return cases
 
